@@ -37,7 +37,7 @@ func Check() *engine.Check {
 	return &engine.Check{
 		ID:    "C11",
 		Level: "exploration",
-		Rule: "per mechanism family (remote authorizer, generic contextualizer, generic authenticator, jwt authenticator key cache, " +
+		Rule: "(concurrent key lookups) two requests whose tokens name different keys of one key set reach a jwt authenticator with an empty cache, the first answer of the key set endpoint held until the second request has asked too: each is answered as alone, then and afterwards; (families) per mechanism family (remote authorizer, generic contextualizer, generic authenticator, jwt authenticator key cache, " +
 			"oauth2_introspection authenticator, jwt finalizer, oauth2_client_credentials finalizer and endpoint strategy, httpcache RoundTripper) " +
 			"the full product of mechanism configurations (endpoint headers 0-3 templated+fixed, values 0-3, payload template on/off, forwarded " +
 			"headers 0-2, forwarded cookies 0-2, auth strategy none/api key/basic/client credentials, prototype or rule level variant through " +
@@ -586,6 +586,9 @@ func run(c *engine.Ctx) {
 		maxDev = 2
 	}
 
+	// two requests for different keys of one key set while nothing is cached
+	runConcurrent(c, r.tr)
+
 	work := 0
 
 	for _, f := range families() {
@@ -615,6 +618,27 @@ func run(c *engine.Ctx) {
 }
 
 func replay(c *engine.Ctx, raw json.RawMessage) {
+	var part struct {
+		Part string `json:"part"`
+	}
+
+	if json.Unmarshal(raw, &part) == nil && part.Part == "concurrent-key-lookups" {
+		var cc ConcCase
+
+		_ = json.Unmarshal(raw, &cc)
+
+		r := newRunner(c)
+		sig, sum := execConc(r.tr, &cc)
+
+		fmt.Printf("replay: %+v -> %q %s\n", cc, sig, sum)
+
+		if sig != "" {
+			c.Violation(sig, sum, &cc)
+		}
+
+		return
+	}
+
 	var cs Case
 	if err := json.Unmarshal(raw, &cs); err != nil {
 		c.Infra("bad replay: %v", err)
